@@ -71,8 +71,8 @@ func checkLogfmtRecord(rc recCase, payloads []string, pan string) (clause, detai
 	}
 	if rc.Named {
 		lp, ok := next("logger")
-		if !ok || lp.Val != recLoggerName {
-			return "field-order", fmt.Sprintf("second pair is not logger=%q; payload %.200q", recLoggerName, p)
+		if !ok || lp.Val != rc.loggerName() && lp.Val != toValid(rc.loggerName()) && lp.Val != toValidPerByte(rc.loggerName()) {
+			return "field-order", fmt.Sprintf("second pair is not logger=%q; payload %.200q", rc.loggerName(), p)
 		}
 	}
 	lp, ok := next("level")
